@@ -236,7 +236,11 @@ func runCfgChild(op string) string {
 			}
 			res := fmt.Sprintf("started:ver=%d,max=%d", ver, max)
 			if firstUnsupported >= 0 {
-				res += ",ov=" + cfgOverrideSeen(bind, cl, uint16(firstUnsupported))
+				cv := primitive.ProtocolVersion4
+				if max < 4 {
+					cv = primitive.ProtocolVersion(max)
+				}
+				res += ",ov=" + cfgOverrideSeen(bind, cl, uint16(firstUnsupported), cv)
 			}
 			return res
 		}
@@ -247,13 +251,13 @@ func runCfgChild(op string) string {
 
 // cfgOverrideSeen sends an INSERT with the given consistency through the running proxy and reports the consistency
 // the backend received.
-func cfgOverrideSeen(addr string, cl *fakecass.Cluster, cons uint16) string {
+func cfgOverrideSeen(addr string, cl *fakecass.Cluster, cons uint16, v primitive.ProtocolVersion) string {
 	c, err := e2e.DialRaw(addr)
 	if err != nil {
 		return "dial"
 	}
 	defer c.Close()
-	c.Version = primitive.ProtocolVersion4
+	c.Version = v
 	if c.Send(1, &message.Startup{Options: map[string]string{"CQL_VERSION": "3.0.0"}}) != nil {
 		return "write"
 	}
